@@ -166,12 +166,21 @@ class Live:
         return len(self.buf)
 
     def wait_ended(self, timeout: float) -> bool:
-        return self.ended.wait(timeout)
+        """Wait for the serve loop to end, draining what it still writes (it may be blocked on a full pipe)."""
+        deadline = time.monotonic() + timeout
+        while True:
+            if self.ended.is_set():
+                return True
+            left = deadline - time.monotonic()
+            if left <= 0:
+                return False
+            if not self._pump(min(left, 0.05)):
+                self.ended.wait(min(left, 0.02))
 
     def shutdown(self, timeout: float = 3.0) -> bool:
         """EOF to the server; True iff the serve loop ended by itself within the timeout."""
         self.close_write()
-        ok = self.ended.wait(timeout)
+        ok = self.wait_ended(timeout)
         if ok:
             while self._pump(0.0):
                 pass
@@ -233,7 +242,7 @@ class ProcLive(Live):
 
     def shutdown(self, timeout: float = 3.0) -> bool:
         self.close_write()
-        ok = self.ended.wait(timeout)
+        ok = self.wait_ended(timeout)
         if ok:
             while self._pump(0.0):
                 pass
